@@ -390,6 +390,69 @@ fn radau_pade_general(rep: &mut Report) {
     rep.absorb(outs);
 }
 
+/// (2d) the abscissae at which Radau evaluates a t-dependent right-hand side: during every accepted step the inner
+/// stages are evaluated at xold + c1 h and xold + c2 h of *that* step (also on steps that reuse the factorisation
+/// of the previous one), c = (4 -+ sqrt 6)/10 computed here
+fn radau_stage_times(rep: &mut Report) {
+    let (c1, c2) = ((4.0 - 6f64.sqrt()) / 10.0, (4.0 + 6f64.sqrt()) / 10.0);
+    let probs = vec![(warp(&base(Base::Logistic(2.0)), Warp::Sin), 6.0), (warp(&base(Base::Harmonic(1.0)), Warp::Quad), 3.0), (warp(&base(Base::Decay(-1.0)), Warp::Sin), 8.0)];
+    let mut same_h_steps = 0u64;
+    for (pi, (p0, span)) in probs.iter().enumerate() {
+        for backward in [false, true] {
+            // (pinned: a binding max_step, so that every step repeats the step size; with loose tolerances even a badly
+            // inconsistent step passes the error test; with a tight one the Newton iteration needs two sweeps and
+            // converges fast, which is when the solver keeps Jacobian and factorisation)
+            for (rtol, pinned) in [(1e-3, false), (1e-5, false), (1e-7, false), (1e-1, true), (1.0, true), (1e-10, true), (1e-10, false)] {
+                let pr = if backward { reflect(p0) } else { p0.clone() };
+                let xend = if backward { -*span } else { *span };
+                let mut c = Cfg::new(Method::RADAU, 0.0, xend, &pr.y0).tol(rtol, if pinned && rtol > 1e-3 { rtol } else { rtol * 1e-3 });
+                c.user_jac = true;
+                c.keep_log = true;
+                if pinned {
+                    let k = if rtol < 1e-6 { 600.0 } else { 40.0 };
+                    c.max_step = Some(span / k);
+                    // 0.9 of the bound: the proposed step (clamped to max_step) stays 1.11 times the current one, which is
+                    // inside the window (1, 1.2) in which Radau keeps the step size and the factorisation
+                    c.first_step = Some(0.9 * xend / k);
+                }
+                let r = run_lowlevel(&pr, &c, &[], &[], None, false);
+                rep.evaluations += 1;
+                rep.transitions += r.st.n_ode;
+                let key = format!("radautimes:{}:{}:{:e}:{}", pi, backward as u8, rtol, pinned as u8);
+                if r.ok().map(|i| i.status != Status::Success).unwrap_or(true) || r.recs.len() < 4 {
+                    rep.machinery_errors.push(format!("Radau stage-time scene {} ended with {}", key, r.outcome_name()));
+                    continue;
+                }
+                let calls: Vec<f64> = r.st.log.iter().filter(|q| !q.in_jac).map(|q| q.t).collect();
+                for j in 1..r.recs.len() {
+                    let (a, b) = (r.recs[j - 1].n_ode_before as usize, r.recs[j].n_ode_before as usize);
+                    let (xo, x) = (r.recs[j].xold, r.recs[j].x);
+                    let h = x - xo;
+                    let sl = 8.0 * f64::EPSILON * (xo.abs() + h.abs());
+                    let win = &calls[a.min(calls.len())..b.min(calls.len())];
+                    let has = |t: f64| win.iter().any(|u| (u - t).abs() <= sl);
+                    if j >= 2 && (r.recs[j - 1].x - r.recs[j - 1].xold).to_bits() == h.to_bits() {
+                        same_h_steps += 1;
+                    }
+                    rep.validated += 1;
+                    if std::env::var("VERIF_DEBUG").is_ok() && pinned && rtol < 1e-9 && j >= 28 && j <= 31 && pi == 2 && !backward {
+                        println!("DBG radautimes {} step {} xo={:e} h={:e} want {:e} {:e} window {:?}", key, j, xo, h, xo + c1 * h, xo + c2 * h, win);
+                    }
+                    if !(has(xo + c1 * h) && has(xo + c2 * h)) {
+                        rep.violations.push(
+                            Violation::new(&key, "radau-stage-times", format!("Radau on {}: during accepted step {} from {:e} with h = {:e} the right-hand side was never evaluated at xold + c1 h = {:e} / xold + c2 h = {:e}; it was evaluated at {:?}", pr.name, j, xo, h, xo + c1 * h, xo + c2 * h, win.iter().take(12).collect::<Vec<_>>()), json!({"key": key}))
+                                .with("method", "RADAU"),
+                        );
+                        break;
+                    }
+                }
+                *rep.tags.entry("radau-stage-times".into()).or_insert(0) += 1;
+            }
+        }
+    }
+    *rep.tags.entry("radau-steps-repeating-the-step-size".into()).or_insert(0) += same_h_steps;
+}
+
 /// (3) the real estimator evaluated on every tree: answering stage i with Phi_i(t)
 fn estimator_on_trees(rep: &mut Report, f: &Forest, ex: &Extracted) {
     let (_, _, low) = orders(ex.method);
@@ -670,6 +733,7 @@ pub fn run_check(replay: Option<Value>) -> i32 {
                         radau_stability(&mut rep, &ex);
                         radau_pade_every_step(&mut rep);
                         radau_pade_general(&mut rep);
+                        radau_stage_times(&mut rep);
                     }
                     if sign > 0.0 {
                         estimator_on_trees(&mut rep, &forest, &ex);
@@ -718,7 +782,7 @@ pub fn run_check(replay: Option<Value>) -> i32 {
     rep.dims = json!({"methods": RK_METHODS.iter().map(|m| mname(*m)).collect::<Vec<_>>(), "h_signs": [1, -1], "rooted_trees_up_to_order": 9,
         "conditions": {"RK4": 8, "RK23": 4, "DOPRI5": 17, "DOP853": 200, "RADAU": 17}, "estimator_trees": "all trees of order <= q+1 at atol 1e-13 and 1e-8",
         "cross_validation": "6 nonlinear problems x 4 step sizes x both signs per explicit method", "local_order": "4 problems x both directions x h=2^-1..2^-8", "step_count": "2 problems x 9 tolerances"});
-    for t in ["second-step-tableau", "order-condition", "estimator-trees", "cross-validated", "local-order-ladder", "local-order-ladder-after-modification", "step-count-law", "radau-real-step-vs-pade", "radau-pade-every-step", "radau-pade-general"] {
+    for t in ["second-step-tableau", "order-condition", "estimator-trees", "cross-validated", "local-order-ladder", "local-order-ladder-after-modification", "step-count-law", "radau-real-step-vs-pade", "radau-pade-every-step", "radau-pade-general", "radau-stage-times", "radau-steps-repeating-the-step-size"] {
         rep.require(t, 1);
     }
     rep.states_override = Some(forest.trees.len() as u64 * RK_METHODS.len() as u64);
